@@ -1,4 +1,5 @@
 import PilotaModel.Lemmas.Base
+import PilotaModel.Lemmas.Fuel
 import PilotaModel.Thrift.Binary
 namespace Pilota.Thrift.Binary
 open Pilota Pilota.Thrift
@@ -52,13 +53,32 @@ theorem readBytes_enc (e) (bs r : Bytes) (h : bs.length < 2 ^ 31) :
     readBytes e (i e 4 (toS 4 bs.length) ++ (bs ++ r)) = .ok (bs, r) := by
   simp [readBytes, readLen e bs.length h, asUsize_toS4 _ h, splitTo]
 
-theorem readListBegin_enc (e) (et : TType) (n : Nat) (h : n < 2 ^ 31) (r : Bytes) :
-    readListBegin e (UInt8.ofNat et.toByte :: (i e 4 (toS 4 n) ++ r)) = .ok ((et, n), r) := by
-  simp [readListBegin, readTType_cons, readLen e n h, asUsize_toS4 _ h]
+theorem toS4_eq (n : Nat) (h : n < 2 ^ 31) : toS 4 n = (n : Int) := by
+  unfold toS
+  have e4 : (256:Nat) ^ 4 = 4294967296 := by decide
+  have e31 : (2:Nat) ^ 31 = 2147483648 := by decide
+  rw [e4]; rw [e31] at h
+  have h1 : n % 4294967296 = n := Nat.mod_eq_of_lt (by omega)
+  rw [h1]
+  have h2 : n < 4294967296 / 2 := by omega
+  simp [h2]
 
-theorem readMapBegin_enc (e) (kt vt : TType) (n : Nat) (h : n < 2 ^ 31) (r : Bytes) :
+theorem checkSize_ok (n : Nat) (r : Bytes) (h : n ≤ r.length) : checkSize (n : Int) r = .ok n := by
+  unfold checkSize
+  have : ¬ ((n : Int) < 0) := by omega
+  simp [this, h]
+
+theorem readListBegin_enc (e) (et : TType) (n : Nat) (h : n < 2 ^ 31) (r : Bytes) (hr : n ≤ r.length) :
+    readListBegin e (UInt8.ofNat et.toByte :: (i e 4 (toS 4 n) ++ r)) = .ok ((et, n), r) := by
+  have hl := readLen e n h r
+  rw [toS4_eq n h] at hl ⊢
+  simp [readListBegin, readTType_cons, hl, checkSize_ok n r hr]
+
+theorem readMapBegin_enc (e) (kt vt : TType) (n : Nat) (h : n < 2 ^ 31) (r : Bytes) (hr : n ≤ r.length) :
     readMapBegin e (UInt8.ofNat kt.toByte :: UInt8.ofNat vt.toByte :: (i e 4 (toS 4 n) ++ r)) = .ok ((kt, vt, n), r) := by
-  simp [readMapBegin, readTType_cons, readLen e n h, asUsize_toS4 _ h]
+  have hl := readLen e n h r
+  rw [toS4_eq n h] at hl ⊢
+  simp [readMapBegin, readTType_cons, hl, checkSize_ok n r hr]
 
 theorem ttype_isValue_ne_stop (t : TType) (h : t.isValue = true) : t ≠ .stop := by
   cases t <;> simp_all [TType.isValue]
@@ -101,19 +121,19 @@ theorem readVal_enc (e : Endian) (v : TVal) (hw : v.wt = true) (f : Nat) (hf : v
       simp [TVal.wt] at hw; simp [TVal.size] at hf
       obtain ⟨⟨_, hl⟩, hx⟩ := hw
       simp only [enc, TVal.ttype, readVal, List.cons_append, List.append_assoc]
-      rw [readListBegin_enc e et _ hl]
+      rw [readListBegin_enc e et _ hl _ (by have := vals_length_le e xs et hx; simp only [List.length_append]; omega)]
       simp [readN_enc e et xs hx f hf r]
     | set et xs =>
       simp [TVal.wt] at hw; simp [TVal.size] at hf
       obtain ⟨⟨_, hl⟩, hx⟩ := hw
       simp only [enc, TVal.ttype, readVal, List.cons_append, List.append_assoc]
-      rw [readListBegin_enc e et _ hl]
+      rw [readListBegin_enc e et _ hl _ (by have := vals_length_le e xs et hx; simp only [List.length_append]; omega)]
       simp [readN_enc e et xs hx f hf r]
     | map kt vt kvs =>
       simp [TVal.wt] at hw; simp [TVal.size] at hf
       obtain ⟨⟨⟨_, _⟩, hl⟩, hx⟩ := hw
       simp only [enc, TVal.ttype, readVal, List.cons_append, List.append_assoc]
-      rw [readMapBegin_enc e kt vt _ hl]
+      rw [readMapBegin_enc e kt vt _ hl _ (by have := pairs_length_le e kvs kt vt hx; simp only [List.length_append]; omega)]
       simp [readPairs_enc e kt vt kvs hx f hf r]
 theorem readFields_enc (e : Endian) (fs : TFields) (hw : fs.wt = true) (f : Nat) (hf : fs.size ≤ f) (r : Bytes) :
     readFields e f (encFields e fs ++ r) = .ok (fs, r) := by
